@@ -92,7 +92,7 @@ package binary
 //@   let p0 = rpos(sr.reader)
 //@   modifies sr.buffer, rpos(sr.reader)
 //@   alloc[C13] n <= 1048576
-//@   ensures(len) err == nil ==> len(result) == int64(length) && result != nil
+//@   ensures(len) err == nil ==> len(result) == int64(length) && ref(result) > 0
 //@   ensures(bytes) err == nil ==> forall(k, 0, int64(length), result[k] == rin(sr.reader)[p0 + k])
 //@   ensures(pos) err == nil ==> rpos(sr.reader) == p0 + int64(length)
 //@   ensures(mono) rpos(sr.reader) >= p0
